@@ -21,4 +21,4 @@ s2=re.sub(r"<<<<<<< HEAD\n(.*?)=======\n(.*?)>>>>>>> agent-\w+\n",fix,s,flags=re
 open(p,'w').write(s2)
 PY
 python3 tools/sync_dispatch.py; python3 tools/gen_constants.py; python3 tools/gen_manifest.py
-echo "remaining conflicts:"; git diff --name-only --diff-filter=U; grep -n "<<<<<<<" harness/src/repo.rs harness/src/util.rs harness/Cargo.toml 2>/dev/null
+echo "remaining conflicts:"; git diff --name-only --diff-filter=U; grep -rln "^<<<<<<< " --include="*.rs" --include="*.lean" --include="*.py" --include="*.md" --include="*.ops" --include="*.json" . | grep -v "^./work" ; grep -n "<<<<<<<" harness/src/repo.rs harness/src/util.rs harness/Cargo.toml 2>/dev/null
